@@ -18,6 +18,8 @@ mod inputs;
 mod module;
 #[path = "../delta/run.rs"]
 mod run;
+#[path = "../delta/scoper_ext.rs"]
+mod scoper_ext;
 #[path = "../delta/worker.rs"]
 mod worker;
 #[path = "../delta/xml.rs"]
@@ -60,6 +62,7 @@ fn main() {
             let to: usize = args[3].parse().unwrap_or(0);
             worker::worker_main(&args[1], from, to, &opts(&args[4..]));
         }
+        "scoper" if args.len() >= 3 => scoper_ext::run(&args[1], &args[2]),
         "show" if args.len() >= 2 => {
             let case: serde_json::Value = serde_json::from_str(&args[1]).expect("case json");
             case::show(&case);
